@@ -333,6 +333,17 @@ def check_stream_end(rep, rid, core):
             if not ok:
                 what = norm(o.term.get('callee')) + ' on ' + ','.join(sorted(c01.field_of_receiver(f, o.term['args'][0]))) if o.kind == 'call' and o.term['args'] else o.kind
                 bad.append((sb, what))
+    # Pending means "nothing to hand over now": it is returned only after the event queue AND the effect queue were found empty in this
+    # poll (a Pending with outputs still queued is a stall: the waker is registered, but none of the command's tasks may ever fire it)
+    ev_reads = c01.queue_reads(f, 'events')
+    ef_reads = c01.queue_reads(f, 'effects')
+    E_ev = [e for _, es in ev_reads for e in es]
+    E_ef = [e for _, es in ef_reads for e in es]
+    stalls = [b for b in P if (E_ev and b in f.reachable([0], removed_edges=E_ev)) or (E_ef and b in f.reachable([0], removed_edges=E_ef))]
+    rep.expect(rid, bool(E_ev) and bool(E_ef) and not stalls, 'poll_next|pending-only-when-drained',
+               'every Pending return lies behind the empty edge of the event queue and of the effect queue',
+               'Command::poll_next can return Pending without having found both output queues empty (at %s): outputs stay queued and, unless one '
+               'of the command\'s own tasks wakes later, the host is never polled again' % [f.where(b) for b in stalls])
     rep.expect(rid, n_dec >= 1, 'poll_next|decides', '%d switch(es) decide between stream end and Pending' % n_dec,
                'Command::poll_next: nothing decides between Ready(None) and Pending')
     rep.expect(rid, not bad, 'poll_next|end-iff-done', 'every deciding test reads is_done() or the emptiness of tasks / effects / events',
